@@ -23,7 +23,7 @@ def log_cmd(tid):
     return "printf '%s\\037' " + " ".join(fields) + ' >> "$RUN_LOG"; echo >> "$RUN_LOG"; touch here.txt'
 
 
-def doc_text(pid, di, outcome, envkind):
+def doc_text(pid, di, outcome, envkind, shell=None):
     ident = f"p{pid}d{di}"
     mod = ""
     if envkind == "unset":
@@ -33,6 +33,9 @@ def doc_text(pid, di, outcome, envkind):
     lines = [f"# {ident}t1", "", "```scrut", f"$ {log_cmd(ident + 't1')}{mod}", "```", "",
              f"# {ident}t2", "", "```scrut", f"$ {log_cmd(ident + 't2')}; echo out"] + (["different"] if outcome == "fail" else ["out"]) + ["```", ""]
     line_t1, line_t2 = 4, 10
+    if shell:
+        lines = ["---", f"shell: {shell}", "---", ""] + lines
+        line_t1, line_t2 = line_t1 + 4, line_t2 + 4
     if outcome == "timeout":
         lines += [f"# {ident}t3", "", "```scrut {timeout: 1s}", "$ sleep 3; echo late >> \"$RUN_LOG\"", "```", ""]
     if outcome == "timeout_term":
@@ -61,13 +64,22 @@ def experiment(exp_id, scs):
                 else:
                     ddir, name = os.path.join(pdir, "docs"), ["one.md", "two.md"][di]
                 os.makedirs(ddir, exist_ok=True)
-                text, lines = doc_text(pid, di + 1, outcome, sc["env"])
+                shell = None
+                if sc["env"] == "shells":
+                    # a wrapper of its own per document (a script, so that its canonical path is itself)
+                    shell = os.path.join(pdir, f"shell{di + 1}", "mybash")
+                    os.makedirs(os.path.dirname(shell), exist_ok=True)
+                    with open(shell, "w") as f:
+                        f.write('#!/bin/bash\nexec /bin/bash "$@"\n')
+                    os.chmod(shell, 0o755)
+                text, lines = doc_text(pid, di + 1, outcome, sc["env"], shell)
                 path = os.path.join(ddir, name)
                 with open(path, "w") as f:
                     f.write(text)
                 paths.append(path)
                 for tid, ln in lines.items():
-                    expect[tid] = {"TESTDIR": os.path.realpath(ddir), "TESTFILE": name, "SCRUT_TEST": f"{path}:{ln}", "doc": di}
+                    expect[tid] = {"TESTDIR": os.path.realpath(ddir), "TESTFILE": name, "SCRUT_TEST": f"{path}:{ln}", "doc": di,
+                                   "TESTSHELL": os.path.realpath(shell) if shell else None}
             argv = [SCRUT_BIN, "test", "--no-color", "-r", "json"] + paths
             shared_pairs = None
             if sc["env"] == "shared":
@@ -86,9 +98,14 @@ def experiment(exp_id, scs):
                 argv += ["--work-directory", wdir]
             elif sc["mode"] == "keep":
                 argv += ["--keep-temporary-directories"]
+            if sc["env"] == "compat":
+                argv += ["--cram-compat"]
             if shared_pairs is not None:
                 argv += ["-P", os.path.join(pdir, "shared", "pre.md"), "-A", os.path.join(pdir, "shared", "post.md")]
-            env = dict(os.environ, TMPDIR=tmproot, RUN_LOG=os.path.join(pdir, "run.log"), NO_COLOR="1")
+            # the caller's environment sets the documented variables to something else: scrut must neutralise that
+            env = dict(os.environ, TMPDIR=tmproot, RUN_LOG=os.path.join(pdir, "run.log"), NO_COLOR="1",
+                       CDPATH="/polluted-cdpath", GREP_OPTIONS="--polluted", LANG="de_DE.UTF-8", LANGUAGE="de", LC_ALL="de_DE.UTF-8",
+                       TZ="Asia/Tokyo", COLUMNS="7", TESTDIR="/polluted", TESTFILE="polluted", TESTSHELL="/polluted", SCRUT_TEST="polluted")
             env.pop("SCRUT_VERIF_TRACE", None)
             p = subprocess.Popen(argv, cwd=pdir, env=env, stdout=subprocess.PIPE, stderr=subprocess.PIPE, start_new_session=True)
             procs.append({"p": p, "sc": sc, "pdir": pdir, "wdir": wdir, "expect": expect, "paths": paths, "shared_pairs": shared_pairs})
@@ -150,8 +167,10 @@ def experiment(exp_id, scs):
                 if e is None:
                     bad_env.append(f"{tid}:no-log")
                     continue
-                want = {"TESTDIR": exp["TESTDIR"], "TESTFILE": exp["TESTFILE"], "TESTSHELL": bash, "LANG": "C", "LANGUAGE": "C", "LC_ALL": "C",
+                want = {"TESTDIR": exp["TESTDIR"], "TESTFILE": exp["TESTFILE"], "TESTSHELL": exp.get("TESTSHELL") or bash, "LANG": "C", "LANGUAGE": "C", "LC_ALL": "C",
                         "TZ": "GMT", "COLUMNS": "80", "CDPATH": "", "GREP_OPTIONS": "", "SCRUT_TEST": exp["SCRUT_TEST"]}
+                if sc["env"] == "compat":
+                    del want["SCRUT_TEST"]          # documented for the per-test executor only
                 wrong = sorted(v for v, w in want.items() if e[v] != w)
                 if e["tmp_is_dir"] != "dir" or not e["TMPDIR"].startswith((tmproot if sc["mode"] != "workdir" else pr["wdir"]) + "/"):
                     wrong.append("TMPDIR")
@@ -210,11 +229,14 @@ def run(prop, tier, replay=None):
         r2 = tlc("MC_WorkDirs", "GEN_WorkDirs.cfg", work, workers=4, timeout=3000, line_filter=lambda l: l.startswith('<<"REPLAY"') or l.startswith("Error"))
         tlc_must_pass(r2, "WorkDirs GEN")
         singles = [json.loads(t)["sc"][0] for t in sorted({f[0] for f in r2.printed("REPLAY")})]
+        # the single-script executor (--cram-compat) refuses per-test timeouts: such documents do not run at all (C20's subject)
+        singles = [x for x in singles if not (x["env"] == "compat" and any(o.startswith("timeout") for o in x["docs"]))]
         rnd = random.Random(s * 101 + 5)
         nsingle, nmulti = (70, 30) if tier == "quick" else (len(singles), 400)
         # always: every (mode, outcome) with one document and plain env; then a seeded sample of the rest
         base = [x for x in singles if not x["samename"] and ((len(x["docs"]) == 1 and x["env"] == "plain")
-                                                             or (x["env"] == "shared" and x["docs"] in (["pass"], ["pass", "fail"], ["timeout"])))]
+                                                             or (x["env"] in ("shared", "compat") and x["docs"] in (["pass"], ["pass", "fail"], ["timeout"], ["skip"]))
+                                                             or (x["env"] == "shells" and x["docs"] in (["pass", "pass"], ["pass", "fail"])))]
         rest = [x for x in singles if x not in base]
         chosen = base + rnd.sample(rest, max(0, min(len(rest), nsingle - len(base))))
         exps = [[x] for x in chosen]
